@@ -1,17 +1,38 @@
-"""Translator for C06: pins the source text of the three regular expressions the
-hand-written scanners of lean/FordModel/Use.lean mirror (USE_RE, ONLY_RE, RENAME_RE), and the
-string tables of the accessibility mechanism: the list of `permission` values that
-`FortranModule._cleanup` exports, and the keyword lists whose members overwrite the single
-`permission` slot of a declared entity (`line_to_variables`, `process_attribs`).
+"""Translator for C06: ties the hand-written parts of lean/FordModel/Use.lean / UseBind.lean to the working
+tree.  Everything is derived from what the code MEANS, not from how it is spelled (round 5):
 
-Writes lean/FordModel/Generated/C06.lean; Props/C06.lean proves (by `decide`) that the
-generated constants are the patterns the scanners were written for, so an edit of one of
-the regexes in /repo changes a proof obligation in the same run.
+* the three regular expressions the scanners mirror (USE_RE, ONLY_RE, RENAME_RE) are pinned by the
+  NORMAL FORM of their parsed pattern (`re._parser`): white space and comments of re.VERBOSE, redundant
+  non-capturing groups, `[\\s]` for `\\s`, the case of literals under IGNORECASE and the spelling of the
+  flags do not matter; group numbers, alternatives, repeats, classes and assertions do.  The normal form is
+  itself a pattern; the translator re-compiles it and compares it with the real object on every string over
+  a small alphabet up to a fixed length, so a defect of the normaliser cannot hide a changed expression;
+* that `get_used_entities` goes through `self.ONLY_RE` / `self.RENAME_RE` is observed on the running
+  function (stand-in object whose two attributes record every use);
+* the accessibility tables (which `permission` values `_cleanup` exports; which keywords overwrite the single
+  `permission` slot, at which place) are obtained by PROBING the real reader on a stub source file: every
+  keyword and every ordered pair of keywords, as attribute and as statement, for variables, types,
+  procedures, generic / abstract interfaces and the bodies of generic interfaces;
+* the binding scan of `find_used_modules` (project modules before external ones, first match) is obtained by
+  calling the real function on stand-in objects; which lists `Project.correlate` hands to it, and that it
+  builds one stub per entry of `settings.extra_mods`, is observed on a real (tiny) project.
+
+Writes lean/FordModel/Generated/C06.lean; Props/C06.lean proves that the generated constants are what the
+model was written for, so a change of MEANING in /repo changes a proof obligation in the same run.  A probe
+that cannot be evaluated raises (counts as "tie broken", never a pass).
 """
 from __future__ import annotations
 
+import inspect
+import itertools
 import re
+import types
 from pathlib import Path
+
+try:
+    import re._parser as _P
+except ImportError:  # Python < 3.11
+    import sre_parse as _P
 
 
 def lean_str(s: str) -> str:
@@ -39,197 +60,482 @@ def lean_chars(s: str) -> str:
     return "[" + ", ".join(f"'{c}'" for c in s) + "]"
 
 
-def _str_list(node):
-    import ast
+# --------------------------------------------------------------------------
+# regular expressions: normal form of the parsed pattern
+# --------------------------------------------------------------------------
 
-    if isinstance(node, (ast.List, ast.Tuple)) and node.elts and all(
-            isinstance(e, ast.Constant) and isinstance(e.value, str) for e in node.elts):
-        return [e.value for e in node.elts]
+_SPECIAL = set(".^$*+?{}[]\\|()")
+_CATS = {"CATEGORY_SPACE": "\\s", "CATEGORY_NOT_SPACE": "\\S", "CATEGORY_WORD": "\\w", "CATEGORY_NOT_WORD": "\\W",
+         "CATEGORY_DIGIT": "\\d", "CATEGORY_NOT_DIGIT": "\\D"}
+_LAYOUT_FLAGS = int(re.VERBOSE) | int(re.DEBUG)
+
+
+def _lit(code: int, icase: bool, in_set: bool = False) -> str:
+    c = chr(code)
+    if icase and len(c.lower()) == 1:
+        c = c.lower()
+    if c == "\n":
+        return "\\n"
+    if c == "\t":
+        return "\\t"
+    if c == " ":
+        return "\\ "  # (so that the normal form means the same with and without re.VERBOSE)
+    if c == "#":
+        return "\\#"
+    if in_set:
+        return "\\" + c if c in "\\]^-[" else c
+    return "\\" + c if c in _SPECIAL else c
+
+
+def _flat(items):
+    """the items of a sequence with transparent groups dissolved: `(?:...)` without flags only groups"""
+    out = []
+    for op, av in items:
+        if str(op) == "SUBPATTERN" and av[0] is None and not av[1] and not av[2]:
+            out += _flat(av[3])
+        else:
+            out.append((op, av))
+    return out
+
+
+def _set_item(op, av, icase):
+    o = str(op)
+    if o == "LITERAL":
+        return _lit(av, icase, True)
+    if o == "CATEGORY":
+        if str(av) not in _CATS:
+            raise LookupError(f"regex normal form: character category {av} not supported")
+        return _CATS[str(av)]
+    if o == "RANGE":
+        return _lit(av[0], icase, True) + "-" + _lit(av[1], icase, True)
+    raise LookupError(f"regex normal form: set item {o} not supported")
+
+
+def _item(op, av, icase):
+    """(text, is one atom)"""
+    o = str(op)
+    if o == "LITERAL":
+        return _lit(av, icase), True
+    if o == "NOT_LITERAL":
+        return "[^" + _lit(av, icase, True) + "]", True
+    if o == "ANY":
+        return ".", True
+    if o == "IN":
+        neg = bool(av) and str(av[0][0]) == "NEGATE"
+        body = av[1:] if neg else av
+        if not neg and len(body) == 1 and str(body[0][0]) == "CATEGORY":
+            return _set_item(*body[0], icase), True
+        return "[" + ("^" if neg else "") + "".join(sorted(_set_item(o2, a2, icase) for o2, a2 in body)) + "]", True
+    if o in ("MAX_REPEAT", "MIN_REPEAT", "POSSESSIVE_REPEAT"):
+        lo, hi, sub = av
+        body = _flat(sub)
+        text = _seq(body, icase, grouped=False)
+        one = len(body) == 1 and _item(*body[0], icase)[1] and str(body[0][0]) not in ("MAX_REPEAT", "MIN_REPEAT", "POSSESSIVE_REPEAT", "AT")
+        if not one:
+            text = "(?:" + _seq(body, icase, grouped=True) + ")"
+        inf = hi == _P.MAXREPEAT
+        q = "*" if (lo, inf) == (0, True) else "+" if (lo, inf) == (1, True) else "?" if (lo, hi) == (0, 1) else \
+            "{%d,%s}" % (lo, "" if inf else hi) if lo != hi else "{%d}" % lo
+        return text + q + {"MAX_REPEAT": "", "MIN_REPEAT": "?", "POSSESSIVE_REPEAT": "+"}[o], False
+    if o == "SUBPATTERN":
+        g, add, dele, sub = av
+        inner = _seq(_flat(sub), icase, grouped=True)
+        if g is not None:
+            if add or dele:
+                raise LookupError("regex normal form: flags on a capturing group not supported")
+            return "(" + inner + ")", True
+        fl = "".join(ch for ch, bit in (("i", re.I), ("m", re.M), ("s", re.S), ("x", re.X)) if add & bit)
+        fd = "".join(ch for ch, bit in (("i", re.I), ("m", re.M), ("s", re.S), ("x", re.X)) if dele & bit)
+        return "(?" + fl + ("-" + fd if fd else "") + ":" + inner + ")", True
+    if o == "BRANCH":
+        return "|".join(_seq(_flat(b), icase, grouped=True) for b in av[1]), False
+    if o == "AT":
+        at = {"AT_BEGINNING": "^", "AT_END": "$", "AT_BEGINNING_STRING": "\\A", "AT_END_STRING": "\\Z",
+              "AT_BOUNDARY": "\\b", "AT_NON_BOUNDARY": "\\B"}
+        if str(av) not in at:
+            raise LookupError(f"regex normal form: position {av} not supported")
+        return at[str(av)], True
+    if o in ("ASSERT", "ASSERT_NOT"):
+        direction, sub = av
+        head = ("(?=" if o == "ASSERT" else "(?!") if direction > 0 else ("(?<=" if o == "ASSERT" else "(?<!")
+        return head + _seq(_flat(sub), icase, grouped=True) + ")", True
+    if o == "GROUPREF":
+        return "\\%d" % av, True
+    raise LookupError(f"regex normal form: construct {o} not supported")
+
+
+def _seq(items, icase, grouped):
+    """text of a sequence; `grouped`: the sequence is the whole content of a group (or of the pattern), so an
+    alternation needs no parentheses of its own"""
+    parts = []
+    for op, av in items:
+        text, _ = _item(op, av, icase)
+        if str(op) == "BRANCH" and not (grouped and len(items) == 1):
+            text = "(?:" + text + ")"
+        parts.append(text)
+    return "".join(parts)
+
+
+def regex_normal_form(rx: re.Pattern):
+    """(normal form of the pattern, flags without the layout-only ones, number of capturing groups)"""
+    parsed = _P.parse(rx.pattern, rx.flags)
+    flags = int(parsed.state.flags) & ~_LAYOUT_FLAGS
+    if parsed.state.groupdict:
+        raise LookupError("regex normal form: named groups not supported")
+    text = _seq(_flat(list(parsed)), bool(flags & re.I), grouped=True)
+    return text, flags, rx.groups
+
+
+def _same_language(a: re.Pattern, b: re.Pattern, tokens, maxlen: int):
+    """first string over `tokens` (up to `maxlen` tokens) on which match / search / sub of the two compiled
+    expressions differ, or None"""
+    for n in range(maxlen + 1):
+        for combo in itertools.product(tokens, repeat=n):
+            s = "".join(combo)
+            for fn in ("match", "search"):
+                x, y = getattr(a, fn)(s), getattr(b, fn)(s)
+                if (x is None) != (y is None) or (x is not None and (x.span(), x.groups()) != (y.span(), y.groups())):
+                    return s
+            if a.sub("", s) != b.sub("", s):
+                return s
     return None
 
 
-def _find_def(tree, path):
-    """the (nested) function / class definition named by `path`"""
-    import ast
-
-    node = tree
-    for name in path:
-        for ch in ast.walk(node):
-            if ch is not node and isinstance(ch, (ast.FunctionDef, ast.ClassDef)) and ch.name == name:
-                node = ch
-                break
-        else:
-            raise LookupError(f"{'.'.join(path)}: no definition of {name!r} any more")
-    return node
+RX_TOKENS = {
+    "USE_RE": ["use", " ", ",", "::", ":", "intrinsic", "non_", "m", "a=>b", "\t"],
+    "ONLY_RE": [",", " ", "only", "ONLY", ":", "a", "=>", "\t", "on"],
+    "RENAME_RE": ["a", "_", "1", " ", "=>", "=", ">", ",", "\t"],
+}
 
 
-def access_tables(source: str):
-    """(exported permissions, [keyword list of every `if x in [...]: <...>permission = x`])"""
-    import ast
-
-    tree = ast.parse(source)
-    # 1. FortranModule._cleanup.should_be_public: `return item.permission in [<strings>]`
-    f = _find_def(tree, ["FortranModule", "_cleanup", "should_be_public"])
-    body = [n for n in f.body if not (isinstance(n, ast.Expr) and isinstance(n.value, ast.Constant))]
-    exported = None
-    if len(body) == 1 and isinstance(body[0], ast.Return) and isinstance(body[0].value, ast.Compare):
-        c = body[0].value
-        if (len(c.ops) == 1 and isinstance(c.ops[0], ast.In) and isinstance(c.left, ast.Attribute)
-                and c.left.attr == "permission" and isinstance(c.left.value, ast.Name)
-                and c.left.value.id == f.args.args[0].arg):
-            exported = _str_list(c.comparators[0])
-    if exported is None:
-        raise LookupError("FortranModule._cleanup.should_be_public is no longer `return item.permission in [...]`")
-    # 2. every place that writes an access keyword into the slot of a declared entity
-    writes = []
-    for path in (["line_to_variables"], ["FortranCodeUnit", "process_attribs"]):
-        fn = _find_def(tree, path)
-        found = 0
-        for n in ast.walk(fn):
-            if not (isinstance(n, ast.If) and isinstance(n.test, ast.Compare) and len(n.test.ops) == 1
-                    and isinstance(n.test.ops[0], ast.In) and isinstance(n.test.left, ast.Name)):
-                continue
-            kws = _str_list(n.test.comparators[0])
-            if kws is None or len(n.body) != 1 or not isinstance(n.body[0], ast.Assign):
-                continue
-            a = n.body[0]
-            tgt = a.targets[0]
-            tname = tgt.attr if isinstance(tgt, ast.Attribute) else tgt.id if isinstance(tgt, ast.Name) else ""
-            if tname == "permission" and isinstance(a.value, ast.Name) and a.value.id == n.test.left.id:
-                writes.append((".".join(path), kws))
-                found += 1
-        if not found:
-            raise LookupError(f"{'.'.join(path)}: no `if x in [...]: permission = x` any more")
-    return exported, writes
-
-
-def binding_tables(project_source: str):
-    """The scan of `find_used_modules` that turns the module name of a USE statement into a module
-    object, read from the AST:
-      for dependency in entity.uses:
-          ...
-          for candidate in chain(<A>, <B>):
-              if <name> == candidate.name.lower():
-                  dependency[0] = candidate
-                  break
-    -> ([A, B] as parameter names, [attributes of Project passed for A and B in Project.correlate],
-        first_match: the assignment is followed by `break`).  Also requires that Project.correlate still
-    builds one ExternalModule per entry of settings.extra_mods."""
-    import ast
-
-    tree = ast.parse(project_source)
-    fn = _find_def(tree, ["find_used_modules"])
-    params = [a.arg for a in fn.args.args]
-    scan = None
-    for outer in ast.walk(fn):
-        if not (isinstance(outer, ast.For) and isinstance(outer.iter, ast.Attribute) and outer.iter.attr == "uses"
-                and isinstance(outer.target, ast.Name)):
-            continue
-        dep = outer.target.id
-        for inner in ast.walk(outer):
-            if not (isinstance(inner, ast.For) and inner is not outer and isinstance(inner.iter, ast.Call)
-                    and isinstance(inner.iter.func, ast.Name) and inner.iter.func.id == "chain"
-                    and isinstance(inner.target, ast.Name)
-                    and all(isinstance(a, ast.Name) for a in inner.iter.args)):
-                continue
-            cand = inner.target.id
-            if len(inner.body) != 1 or not isinstance(inner.body[0], ast.If) or inner.body[0].orelse:
-                continue
-            test, body = inner.body[0].test, inner.body[0].body
-            lowered = f"{cand}.name.lower()"
-            if not (isinstance(test, ast.Compare) and len(test.ops) == 1 and isinstance(test.ops[0], ast.Eq)
-                    and lowered in (ast.unparse(test.left), ast.unparse(test.comparators[0]))):
-                continue
-            if not body or not isinstance(body[0], ast.Assign) or ast.unparse(body[0].targets[0]) != f"{dep}[0]" \
-                    or ast.unparse(body[0].value) != cand:
-                continue
-            other = test.comparators[0] if ast.unparse(test.left) == lowered else test.left
-            # the other side must be the lower-cased name of the statement
-            lowered_dep = any(isinstance(n, ast.Assign) and isinstance(n.targets[0], ast.Name)
-                              and isinstance(other, ast.Name) and n.targets[0].id == other.id
-                              and ast.unparse(n.value) == f"{dep}[0].lower()" for n in ast.walk(outer)) \
-                or ast.unparse(other) == f"{dep}[0].lower()"
-            if not lowered_dep:
-                continue
-            scan = ([a.id for a in inner.iter.args], len(body) == 2 and isinstance(body[1], ast.Break))
-    if scan is None:
-        raise LookupError("find_used_modules no longer binds a USE by `for candidate in chain(...): "
-                          "if <lower name> == candidate.name.lower(): dependency[0] = candidate`")
-    chain_params, first_match = scan
-    for a in chain_params:
-        if a not in params:
-            raise LookupError(f"find_used_modules: chain argument {a!r} is not a parameter")
-    # Project.correlate: which attributes are passed, and the stubs made from settings.extra_mods
-    corr = _find_def(tree, ["Project", "correlate"])
-    passed = None
-    for n in ast.walk(corr):
-        if isinstance(n, ast.Call) and isinstance(n.func, ast.Name) and n.func.id == "find_used_modules" \
-                and len(n.args) == len(params) and not n.keywords:
-            args = [a.attr if isinstance(a, ast.Attribute) and isinstance(a.value, ast.Name) and a.value.id == "self"
-                    else None for a in n.args]
-            passed = [args[params.index(a)] for a in chain_params]
-    if passed is None or None in passed:
-        raise LookupError("Project.correlate no longer calls find_used_modules(entity, self.<...>, ...) positionally")
-    stubs = False
-    for n in ast.walk(corr):
-        if isinstance(n, (ast.ListComp, ast.GeneratorExp)) and isinstance(n.elt, ast.Call) \
-                and isinstance(n.elt.func, ast.Name) and n.elt.func.id == "ExternalModule" \
-                and ast.unparse(n.generators[0].iter).endswith("settings.extra_mods.items()"):
-            stubs = True
-    if not stubs:
-        raise LookupError("Project.correlate no longer builds ExternalModule(name, url) for settings.extra_mods.items()")
-    return chain_params, passed, first_match
-
-
-def translate(common):
-    common.import_ford()
-    import ford.sourceform as sf
-
+def regex_tables(sf):
     items = []
     for owner, attr in ((sf.FortranContainer, "USE_RE"), (sf.FortranModule, "ONLY_RE"), (sf.FortranModule, "RENAME_RE")):
         rx = getattr(owner, attr, None)
         if not isinstance(rx, re.Pattern):
             raise LookupError(f"{owner.__name__}.{attr} is not a compiled regex any more")
-        items.append((attr, rx.pattern, int(rx.flags)))
-    # the module-level dispatch on `use_specs` must still go through these two attributes
-    import inspect
+        text, flags, groups = regex_normal_form(rx)
+        try:
+            again = re.compile(text, flags)
+        except re.error as e:
+            raise LookupError(f"{attr}: normal form {text!r} does not compile ({e})")
+        if regex_normal_form(again)[0] != text or again.groups != groups:
+            raise LookupError(f"{attr}: normal form {text!r} is not stable")
+        bad = _same_language(rx, again, RX_TOKENS[attr], 5)
+        if bad is not None:
+            raise LookupError(f"{attr}: normal form {text!r} and the compiled pattern {rx.pattern!r} differ on {bad!r}")
+        items.append((attr, text, flags, groups, rx.pattern))
+    return items
 
-    src = inspect.getsource(sf.FortranModule.get_used_entities)
-    for needle in ("self.ONLY_RE.match", "self.ONLY_RE.sub", "self.RENAME_RE.search", '.split(",")'):
-        if needle not in src:
-            raise LookupError(f"get_used_entities no longer contains {needle!r}")
-    lines = ["/- GENERATED by translate/c06.py from ford/sourceform.py - do not edit -/",
-             "namespace Ford.Generated.C06", ""]
-    for attr, pat, flags in items:
-        name = attr.split("_")[0].lower() + "Re"
-        lines.append(f"def {name}Src : String := {lean_str(pat)}")
-        lines.append(f"def {name}Flags : Nat := {flags}")
-    exported, writes = access_tables(Path(sf.__file__).read_text())
-    lines += ["", "/-- `FortranModule._cleanup.should_be_public`: `item.permission in <this list>` -/",
-              "def exportedPermissions : List (List Char) := [" + ", ".join(lean_chars(w) for w in exported) + "]",
-              "", "/-- keyword lists of the statements `if x in <list>: ...permission = x` in "
-              + ", ".join(sorted({w for w, _ in writes})) + " -/",
-              "def slotKeywordLists : List (List (List Char)) := ["
-              + ",\n  ".join("[" + ", ".join(lean_chars(k) for k in kws) + "]" for _, kws in writes) + "]"]
+
+# --------------------------------------------------------------------------
+# get_used_entities consults self.ONLY_RE / self.RENAME_RE
+# --------------------------------------------------------------------------
+
+
+class _Recording:
+    """stands for a compiled pattern and notes that it was consulted"""
+
+    def __init__(self, rx):
+        self._rx, self.consulted = rx, []
+
+    def __getattr__(self, name):
+        self.consulted.append(name)
+        return getattr(self._rx, name)
+
+
+def check_regex_use(sf):
+    M = sf.FortranModule
+    only, ren = _Recording(M.ONLY_RE), _Recording(M.RENAME_RE)
+    fake = types.SimpleNamespace(ONLY_RE=only, RENAME_RE=ren, pub_procs={}, pub_absints={}, pub_types={},
+                                 pub_vars={"b": "B", "c": "C"})
+    try:
+        res = M.get_used_entities(fake, ", only: a => b")
+    except Exception as e:  # noqa
+        raise LookupError(f"get_used_entities cannot be run on a stand-in module ({type(e).__name__}: {e})")
+    if not only.consulted:
+        raise LookupError("get_used_entities no longer consults self.ONLY_RE")
+    if not ren.consulted:
+        raise LookupError("get_used_entities no longer consults self.RENAME_RE")
+    if not (isinstance(res, tuple) and len(res) == 4):
+        raise LookupError("get_used_entities no longer returns the four tables (procs, absints, types, vars)")
+    return {"ONLY_RE": sorted(set(only.consulted)), "RENAME_RE": sorted(set(ren.consulted))}
+
+
+# --------------------------------------------------------------------------
+# accessibility: probe of the reader + _cleanup on a stub source file
+# --------------------------------------------------------------------------
+
+KEYWORDS = ("public", "private", "protected")
+
+
+def _sequences():
+    """every list of one or two distinct access keywords"""
+    return [(k,) for k in KEYWORDS] + [p for p in itertools.permutations(KEYWORDS, 2)]
+
+
+def _probe_source():
+    """text of the stub file and the catalogue of its entities:
+    [(module, site, name, keyword sequence, in which table the entity is looked up)]"""
+    code = {k: k[:3] for k in KEYWORDS}  # pub / pri / pro
+    cat, text = [], []
+    for default in ("public", "private"):
+        mod = f"accprobe_{default}"
+        spec, decls, contains = [], [], []
+        if default == "private":
+            spec.append("  private")
+
+        def stmts(name, seq, first=0):
+            return [f"  {k} :: {name}" for k in seq[first:]]
+
+        n = 0
+        # variables: keywords in the attribute list (a), in statements (s), or first one a then s
+        for seq in _sequences():
+            for place in (("a",), ("s",)) if len(seq) == 1 else (("a", "a"), ("a", "s"), ("s", "s")):
+                n += 1
+                name = f"v{n}_" + "_".join(code[k] + p for k, p in zip(seq, place))
+                inline = "".join(f", {k}" for k, p in zip(seq, place) if p == "a")
+                decls.append(f"  integer{inline} :: {name}")
+                spec += [f"  {k} :: {name}" for k, p in zip(seq, place) if p == "s"]
+                site = "variable/" + ("attribute" if place[-1] == "a" else "statement")
+                cat.append((mod, site, name, seq, "variables"))
+        decls.append("  integer :: v_plain")
+        cat.append((mod, "variable/none", "v_plain", (), "variables"))
+        # the other kinds: access statements only (the one place FORD shares between all of them)
+        for kind, table in (("type", "types"), ("function", "functions"), ("subroutine", "subroutines"),
+                            ("interface", "interfaces"), ("absinterface", "absinterfaces"), ("generic-body", None)):
+            for seq in [()] + _sequences():
+                n += 1
+                name = f"{kind[0]}{n}_" + ("_".join(code[k] for k in seq) or "plain")
+                spec += stmts(name, seq)
+                if kind == "type":
+                    decls += [f"  type :: {name}", "    integer :: c", f"  end type {name}"]
+                elif kind == "function":
+                    contains += [f"  integer function {name}()", f"    {name} = 1", f"  end function {name}"]
+                elif kind == "subroutine":
+                    contains += [f"  subroutine {name}()", f"  end subroutine {name}"]
+                elif kind == "interface":
+                    decls += [f"  interface {name}", f"    subroutine {name}_body(x)", "      integer :: x",
+                              f"    end subroutine {name}_body", "  end interface"]
+                elif kind == "absinterface":
+                    decls += ["  abstract interface", f"    subroutine {name}()", f"    end subroutine {name}", "  end interface"]
+                else:
+                    decls += [f"  interface gen_{name}", f"    subroutine {name}(x)", "      integer :: x",
+                              f"    end subroutine {name}", "  end interface"]
+                cat.append((mod, kind + "/" + ("statement" if seq else "none"), name, seq, table))
+        text += [f"module {mod}", "  implicit none"] + spec + decls + ["contains"] + contains + [f"end module {mod}", ""]
+    return "\n".join(text), cat
+
+
+def access_tables(common, sf):
+    """(exported permission words, {site: keywords that overwrite the slot there}) observed on the real
+    reader: `FortranSourceFile` of the stub file (parsing runs `process_attribs` and `_cleanup`)."""
+    from ford.settings import ProjectSettings
+
+    text, cat = _probe_source()
+    with common.scratch_dir("ford-c06-probe-") as d:
+        f = d / "accprobe.f90"
+        f.write_text(text)
+        try:
+            with common.quiet():
+                src = sf.FortranSourceFile(str(f), ProjectSettings(preprocess=False, dbg=False, warn=False, quiet=True))
+        except Exception as e:  # noqa
+            raise LookupError(f"the accessibility probe file cannot be read ({type(e).__name__}: {e})")
+    mods = {m.name.lower(): m for m in src.modules}
+    slot = {}  # (module, name) -> word in the slot
+    verdict = {}  # permission word -> set of (exported?) observations
+    for modname, site, name, seq, table in cat:
+        m = mods.get(modname)
+        if m is None:
+            raise LookupError(f"accessibility probe: module {modname} was not read")
+        if table is None:  # body of a generic interface
+            objs = [r for i in m.interfaces for r in getattr(i, "routines", []) if r.name.lower() == name]
+        else:
+            objs = [o for o in getattr(m, table) if o.name.lower() == name]
+        if len(objs) != 1:
+            raise LookupError(f"accessibility probe: {site} {name} of {modname} not found among {table or 'interface bodies'}")
+        o = objs[0]
+        perm = getattr(o, "permission", None)
+        if not isinstance(perm, str):
+            raise LookupError(f"accessibility probe: {site} {name} has no permission word")
+        slot[modname, name] = perm.lower()
+        if table is not None:
+            pub = {"variables": m.pub_vars, "types": m.pub_types, "absinterfaces": m.pub_absints}.get(table, m.pub_procs)
+            exported = pub.get(name) is o
+            verdict.setdefault(perm.lower(), set()).add(exported)
+    mixed = sorted(w for w, v in verdict.items() if len(v) > 1)
+    if mixed:
+        raise LookupError(f"accessibility probe: whether an entity is exported is not decided by its permission alone ({mixed})")
+    unknown = sorted(set(verdict) - set(KEYWORDS))
+    if unknown:
+        raise LookupError(f"accessibility probe: permission words outside PUBLIC / PRIVATE / PROTECTED: {unknown}")
+    if set(verdict) != set(KEYWORDS):
+        raise LookupError(f"accessibility probe: permission words never met: {sorted(set(KEYWORDS) - set(verdict))}")
+    exported_words = [w for w in KEYWORDS if verdict[w] == {True}]
+    # the slot starts as the default accessibility of the module
+    for modname, site, name, seq, _ in cat:
+        if not seq and slot[modname, name] != modname.split("_")[1]:
+            raise LookupError(f"accessibility probe: {site} {name} of {modname} does not start from the module default")
+    # per site: the keywords that end up in the slot when given alone AND when given after any other one
+    sites = {}
+    for modname, site, name, seq, _ in cat:
+        if seq:
+            sites.setdefault(site, {}).setdefault(seq[-1], []).append(slot[modname, name] == seq[-1])
+    writes = []
+    for site in sorted(sites):
+        writes.append((site, [k for k in KEYWORDS if sites[site].get(k) and all(sites[site][k])]))
+    return exported_words, writes
+
+
+# --------------------------------------------------------------------------
+# binding: probe of find_used_modules and of what Project.correlate hands to it
+# --------------------------------------------------------------------------
+
+
+def binding_tables(common, fp, sf):
+    """(roles of the candidate lists in the order the scan tries them, the attributes of Project passed for
+    them, first match wins?) - observed, not read from the source."""
+    from ford.settings import ProjectSettings
+
+    orig = fp.find_used_modules
+    sig = inspect.signature(orig)
+    calls = []
+
+    def spy(*a, **kw):
+        try:
+            calls.append(dict(sig.bind(*a, **kw).arguments))
+        except TypeError:
+            pass
+        return orig(*a, **kw)
+
+    with common.scratch_dir("ford-c06-bind-") as d:
+        f = d / "bindprobe.f90"
+        f.write_text("module bindprobe_a\n  integer :: v\nend module bindprobe_a\n"
+                     "module bindprobe_b\n  use bindprobe_a\nend module bindprobe_b\n")
+        sf.namelist = sf.NameSelector()
+        orig_find = fp.find_all_files
+        fp.find_all_files = lambda settings: [f]
+        fp.find_used_modules = spy
+        try:
+            with common.quiet():
+                settings = ProjectSettings(src_dir=[d], preprocess=False, dbg=False, warn=False, quiet=True, graph=False,
+                                           search=False, incl_src=False, extra_mods={"bindprobe_x": "https://example.org/x"})
+                project = fp.Project(settings)
+                project.correlate()
+        except Exception as e:  # noqa
+            raise LookupError(f"binding probe: the stub project cannot be correlated ({type(e).__name__}: {e})")
+        finally:
+            fp.find_all_files = orig_find
+            fp.find_used_modules = orig
+    top = [c for c in calls if any(v is m for m in project.modules for v in c.values())]
+    if not top:
+        raise LookupError("binding probe: Project.correlate no longer calls find_used_modules for the project's modules")
+    stub_names = [str(m.name) for m in project.extModules]
+    wanted = list(settings.extra_mods)
+    if stub_names[:len(wanted)] != wanted or "bindprobe_x" not in stub_names:
+        raise LookupError("binding probe: Project.correlate no longer builds one ExternalModule per entry of settings.extra_mods")
+
+    def attr_of(value):
+        """name of the attribute of the project that IS the list passed (or holds the very same objects)"""
+        if not isinstance(value, list):
+            return None
+        same = [a for a, v in vars(project).items() if v is value]
+        if not same and value:
+            same = [a for a, v in vars(project).items() if isinstance(v, list) and len(v) == len(value)
+                    and all(x is y for x, y in zip(v, value))]
+        return sorted(same)[0] if same else None
+
+    passed = {p: attr_of(v) for p, v in top[0].items()}
+    # the parameter an entity is passed for, and the candidate lists by what they hold
+    ent_par = [p for p, v in top[0].items() if any(v is m for m in project.modules)]
+    mod_par = [p for p, v in top[0].items() if isinstance(v, list) and v and all(any(x is m for m in project.modules) for x in v)]
+    ext_par = [p for p, v in top[0].items() if isinstance(v, list) and v and all(any(x is m for m in project.extModules) for x in v)]
+    if len(ent_par) != 1 or len(mod_par) != 1 or len(ext_par) != 1:
+        raise LookupError("binding probe: cannot tell which arguments of find_used_modules are the entity, the project's "
+                          "modules and the external modules")
+    rest = [p for p in sig.parameters if p not in (ent_par[0], mod_par[0], ext_par[0])]
+
+    def bound(mods, exts, name="Probe_Name"):
+        ent = types.SimpleNamespace(uses=[[name, ""]], routines=[], interfaces=[], absinterfaces=[])
+        kw = {ent_par[0]: ent, mod_par[0]: mods, ext_par[0]: exts}
+        kw.update({p: [] for p in rest})
+        try:
+            orig(**kw)
+        except Exception as e:  # noqa
+            raise LookupError(f"binding probe: find_used_modules cannot be run on stand-in objects ({type(e).__name__}: {e})")
+        return ent.uses[0][0]
+
+    def cand(name, tag):
+        return types.SimpleNamespace(name=name, tag=tag)
+
+    p1, p2, e1, e2 = cand("probe_name", "p1"), cand("PROBE_NAME", "p2"), cand("probe_NAME", "e1"), cand("Probe_name", "e2")
+    only_p, only_e = bound([cand("other", "o"), p1], []), bound([], [cand("other", "o"), e1])
+    if only_p is not p1 or only_e is not e1:
+        raise LookupError("binding probe: a USE is no longer bound to the module / external module of that name (case-insensitively)")
+    if bound([cand("other", "o")], [cand("another", "o")]) != "Probe_Name":
+        raise LookupError("binding probe: a USE of an unknown module no longer keeps its name")
+    both = bound([p1], [e1])
+    if both is p1:
+        roles = [("modules", mod_par[0]), ("external_modules", ext_par[0])]
+    elif both is e1:
+        roles = [("external_modules", ext_par[0]), ("modules", mod_par[0])]
+    else:
+        raise LookupError("binding probe: with a project module and an external module of one name the USE is bound to neither")
+    firsts = {bound([p1, p2], []) is p1, bound([], [e1, e2]) is e1}
+    lasts = {bound([p1, p2], []) is p2, bound([], [e1, e2]) is e2}
+    if firsts == {True}:
+        first_match = True
+    elif lasts == {True}:
+        first_match = False
+    else:
+        raise LookupError("binding probe: which of several candidates of one name is chosen follows no single rule")
+    attrs = [passed[par] for _, par in roles]
+    if None in attrs:
+        raise LookupError("binding probe: the candidate lists passed by Project.correlate are not attributes of the project")
+    return [r for r, _ in roles], attrs, first_match, stub_names
+
+
+def translate(common):
+    common.import_ford()
     import ford.fortran_project as fp
     import ford.settings as fs
+    import ford.sourceform as sf
 
-    chain_params, chain_attrs, first_match = binding_tables(Path(fp.__file__).read_text())
-    intrinsic = list(getattr(fs, "INTRINSIC_MODS", {}) or {})
-    if not intrinsic:
-        raise LookupError("ford.settings.INTRINSIC_MODS is gone or empty")
-    defaults = list(fs.ProjectSettings().extra_mods)
-    if defaults[:len(intrinsic)] != intrinsic:
-        raise LookupError("ProjectSettings().extra_mods no longer starts with the entries of INTRINSIC_MODS")
-    lines += ["", "/-- `for candidate in chain(<these parameters>)` in `find_used_modules` -/",
-              "def bindingChain : List (List Char) := [" + ", ".join(lean_chars(w) for w in chain_params) + "]",
-              "/-- attributes of `Project` passed for them by `Project.correlate` -/",
-              "def bindingChainArgs : List (List Char) := [" + ", ".join(lean_chars(w) for w in chain_attrs) + "]",
-              "/-- `dependency[0] = candidate` is followed by `break` -/",
+    rx = regex_tables(sf)
+    consulted = check_regex_use(sf)
+    lines = ["/- GENERATED by translate/c06.py from the working tree (ford/sourceform.py, ford/fortran_project.py,",
+             "   ford/settings.py) - do not edit -/",
+             "namespace Ford.Generated.C06", ""]
+    for attr, text, flags, groups, pattern in rx:
+        name = attr.split("_")[0].lower() + "Re"
+        lines.append(f"/-- normal form of the parsed pattern of `{attr}` (layout, redundant groups and the case of literals")
+        lines.append("    under IGNORECASE removed; re-compiled and compared with the real object by the translator) -/")
+        lines.append(f"def {name}Src : String := {lean_str(text)}")
+        lines.append("/-- flags without the layout-only ones (VERBOSE, DEBUG) -/")
+        lines.append(f"def {name}Flags : Nat := {flags}")
+        lines.append(f"def {name}Groups : Nat := {groups}")
+    exported, writes = access_tables(common, sf)
+    lines += ["", "/-- the `permission` words with which `FortranModule._cleanup` puts an entity into a `pub_*` table",
+              "    (observed for every kind of entity, default-public and default-private module) -/",
+              "def exportedPermissions : List (List Char) := [" + ", ".join(lean_chars(w) for w in exported) + "]",
+              "", "/-- per place where the reader meets an access keyword (" + ", ".join(s for s, _ in writes) + "):",
+              "    the keywords that end up in the one `permission` slot there, alone and after any other keyword -/",
+              "def slotKeywordLists : List (List (List Char)) := ["
+              + ",\n  ".join("[" + ", ".join(lean_chars(k) for k in kws) + "]" for _, kws in writes) + "]"]
+    roles, attrs, first_match, stubs = binding_tables(common, fp, sf)
+    builtin = list(fs.ProjectSettings().extra_mods)
+    if not builtin:
+        raise LookupError("ProjectSettings().extra_mods has no built-in entries any more")
+    lines += ["", "/-- the candidate lists `find_used_modules` scans for the module of a USE statement, in the order it tries",
+              "    them (observed on stand-in objects) -/",
+              "def bindingChain : List (List Char) := [" + ", ".join(lean_chars(w) for w in roles) + "]",
+              "/-- attributes of `Project` passed for them by `Project.correlate` (observed on a stub project) -/",
+              "def bindingChainArgs : List (List Char) := [" + ", ".join(lean_chars(w) for w in attrs) + "]",
+              "/-- of several candidates with the name of the USE statement the first one is taken -/",
               f"def bindingFirstMatch : Bool := {'true' if first_match else 'false'}",
-              "/-- keys of `ford.settings.INTRINSIC_MODS` (every project gets one empty ExternalModule for each) -/",
-              "def intrinsicModNames : List (List Char) := [" + ",\n  ".join(lean_chars(w) for w in intrinsic) + "]"]
+              "/-- default keys of `ProjectSettings().extra_mods` (every project gets one empty ExternalModule for each) -/",
+              "def intrinsicModNames : List (List Char) := [" + ",\n  ".join(lean_chars(w) for w in builtin) + "]"]
     lines += ["", "end Ford.Generated.C06", ""]
     common.write_if_changed(common.LEAN / "FordModel" / "Generated" / "C06.lean", "\n".join(lines))
-    return {"regex": {a: (p, f) for a, p, f in items}, "exported": exported, "slot_writes": writes,
-            "binding": (chain_params, chain_attrs, first_match), "intrinsic_mods": intrinsic}
+    return {"regex": {a: (t, f, g) for a, t, f, g, _ in rx}, "regex_consulted": consulted, "exported": exported,
+            "slot_writes": writes, "binding": (roles, attrs, first_match), "intrinsic_mods": builtin}
